@@ -33,6 +33,7 @@ type FlowOpts struct {
 	PartW              int  // weight of the environment action "partition" (the connection goes silent)
 	HalfCloseW         int  // share (against 4+4) of breaks that are a half-close: EOF for the reader while writes block
 	FaultFrom          int  // faults only from this step on (the budget otherwise drains on the first opportunities)
+	Linger             int  // faults continue for this many steps after the workload was issued
 	InWindow           int  // the broker's in-flight window: no new message while that many QoS 1/2 transactions are open (0: unlimited)
 	ReuseIDs           bool // the broker reuses packet identifiers as soon as their transaction is complete
 	LazyResend         bool // the broker postpones the retransmission of messages the application holds unacknowledged
@@ -125,6 +126,7 @@ type Flow struct {
 	reqByMarker  map[string]*Req
 	PingReqWire  []int // steps at which a complete PINGREQ was on the wire
 	QStartStep   int
+	issuedStep   int  // step at which the workload was completely issued
 	StalledEarly bool // the quiescence phase was declared because the world stalled with calls outstanding
 	QStartTime   time.Duration
 	FaultSteps   int
@@ -376,6 +378,7 @@ func drawFlowOpts(t *Tape, thorough bool) FlowOpts {
 	o.Disk.AliasLoad = t.Flip("aliasload", 300)
 	o.Budget = t.Draw("budget", 9)
 	o.FaultFrom = []int{0, 0, 0, 0, 40, 100, 200}[t.Draw("faultfrom", 7)]
+	o.Linger = []int{0, 0, 30, 100, 300}[t.Draw("linger", 5)]
 	o.ReqMix = [rkKinds]int{3, 1, 2, 1, 1, 2, 2}
 	o.QuitMix = [4]int{4, 2, 1, 2}
 	o.FailFilter = 200
@@ -835,7 +838,13 @@ func (f *Flow) stepHook() {
 		m.Step(f)
 	}
 	f.compactActive()
-	if f.C != nil && f.pubTasksLive == 0 && f.reqTasksLive == 0 && f.InSent >= f.O.Inbound && f.QStartStep == 0 && f.quiesceReady() {
+	if f.C != nil && f.pubTasksLive == 0 && f.reqTasksLive == 0 && f.InSent >= f.O.Inbound && f.QStartStep == 0 && f.issuedStep == 0 {
+		f.issuedStep = w.Steps
+	}
+	// faults go on for a drawn number of steps after the workload was issued:
+	// the tail of the work (acknowledgements, record removal, what the broker
+	// sent last) is otherwise never met by a fault
+	if f.C != nil && f.issuedStep != 0 && w.Steps-f.issuedStep >= f.O.Linger && f.pubTasksLive == 0 && f.reqTasksLive == 0 && f.InSent >= f.O.Inbound && f.QStartStep == 0 && f.quiesceReady() {
 		f.QStartStep = w.Steps
 		f.QStartTime = s.Now()
 		f.FaultSteps = w.Steps
@@ -1341,6 +1350,17 @@ func (f *Flow) issue(s *Sim, name string, r *Req) {
 	}
 	r.Ret = w.Steps
 	r.RetTime = s.Now()
+	if r.Kind == rkPing && r.Err == nil {
+		// success implies a complete packet (C08): a PINGREQ was
+		// written completely while the call ran
+		done := false
+		for i := len(f.PingReqWire) - 1; i >= 0 && f.PingReqWire[i] >= r.Invoke; i-- {
+			done = true
+		}
+		if !done {
+			w.Violate("C08", "success-incomplete", "Ping", "Ping #%d returned nil at step %d but no PINGREQ was written completely since its invocation at step %d", r.Idx, w.Steps, r.Invoke)
+		}
+	}
 	if r.Kind == rkPing && r.Err != nil && r.pongMet != 0 && !errors.Is(r.Err, mqtt.ErrMax) {
 		w.Probe("ping_lost_callback_then_failed")
 		for _, b := range f.ActiveReqs {
